@@ -8,7 +8,9 @@
             (c) the files bw_write / bw_write_multipass produce (header, chromosome tree, data, index:
                 C01's whole-file round trip, Proofs/BigWigFileThms.v) -> C03_query, C03_values
             (d) shape of answers (C03_sorted_clipped), per-base array (C03_values_array)
-            (e) the caching reader as a state machine: C03_step, C03_history, C03_history_written. *)
+            (e) the caching reader as a state machine: C03_step, C03_history, C03_history_written
+            (f) (c) and (e) on COMPRESSED files, for every round-tripping compressor/decompressor pair:
+                C03_query_compressed, C03_values_compressed, C03_history_written_compressed. *)
 From BT Require Import Base.Util Base.Sexp Base.LE Base.Float Generated.Consts Model.RTree Model.BBIFile Model.BigWigWrite
   Model.BBIRead Model.CachedRead Model.Entry_C03 Proofs.Chunks Proofs.BigWigQuery Proofs.RTreeCodec Proofs.CachedReadInv
   Proofs.BigWigSection Proofs.C03Image Proofs.BigWigValues Proofs.BigWigFileRoundTrip Proofs.BigWigFileThms Proofs.C03Written.
@@ -216,3 +218,96 @@ Example C03_example_reset :
                           h_asql_off := 0; h_summary_off := 0; h_ubuf := 0 |}; i_zooms := []; i_chroms := [] |} in
   c_block_data idf i img full (1, 3) = (Ok [2; 3; 4], {| c_nodes := []; c_blocks := [((1, 3), [2; 3; 4])] |}).
 Proof. vm_compute. reflexivity. Qed.
+
+(* ------------------------------------------------------------------------------------------
+   (f) COMPRESSED FILES.  Model/BigWigWriteZ.v (owned by C09) is the writer model with the block
+   compressor as a parameter (bw_write_z cmp / bw_write_multipass_z cmp: every data and zoom section
+   through [cmp] when options.compress is set, uncompress_buf_size as bbiwrite.rs computes it, all
+   later offsets from the compressed sizes; = bw_write / bw_write_multipass when compression is off,
+   C09_model_uncompressed).  (c) and (e) for those bytes, for EVERY compressor [cmp] and EVERY
+   decompressor [infl] with   o_compress o = true -> forall b, infl (cmp b) = b   (nothing else is
+   asked of the pair).  Proofs: Proofs/BigWigFileZ.v (whole-file layout, header, chromosome tree,
+   C05's search on the index over the compressed blocks, block read through infl, section codec),
+   Proofs/BigWigFileZHistory.v (per-base array; C03_history is already generic in the image, the
+   header and the decompressor, so the history statement is its composition with the exact answer). *)
+From BT Require Import Model.BigWigWriteZ Proofs.BigWigFileZ Proofs.BigWigFileZHistory.
+
+Theorem C03_query_compressed : forall cmp infl fp o sizes inp bs,
+  bw_write_z cmp fp o sizes inp = Ok bs \/ bw_write_multipass_z cmp fp o sizes inp = Ok bs ->
+  (o_compress o = true -> forall b, infl (cmp b) = b) ->
+  opts_ok o -> input_ok sizes inp -> Nlen bs < U64 ->
+  exists i, read_info bs = Ok i /\
+    forall c vs s e, In (c, vs) (runs inp) -> bw_interval infl bs i c s e = Ok (clip_filter s e vs).
+Proof.
+  intros cmp infl fp o sizes inp bs Hw Hrt Ho Hi Hs.
+  destruct (written_z_query cmp infl fp o sizes inp bs Hrt Ho Hi Hs Hw) as (i & Hri & Hq).
+  exists i. split; [exact Hri|]. intros c vs s e Hin. exact (proj1 (Hq c vs Hin) s e).
+Qed.
+Print Assumptions C03_query_compressed.
+
+Theorem C03_values_compressed : forall cmp infl fp o sizes inp bs,
+  bw_write_z cmp fp o sizes inp = Ok bs \/ bw_write_multipass_z cmp fp o sizes inp = Ok bs ->
+  (o_compress o = true -> forall b, infl (cmp b) = b) ->
+  opts_ok o -> input_ok sizes inp -> Nlen bs < U64 ->
+  exists i, read_info bs = Ok i /\
+    forall c vs s e, In (c, vs) (runs inp) -> s <= e -> bw_values infl bs i c s e = Ok (spec_values s e vs).
+Proof.
+  intros cmp infl fp o sizes inp bs Hw Hrt Ho Hi Hs.
+  destruct (written_z_query cmp infl fp o sizes inp bs Hrt Ho Hi Hs Hw) as (i & Hri & Hq).
+  exists i. split; [exact Hri|]. intros c vs s e Hin. exact (proj2 (Hq c vs Hin) s e).
+Qed.
+Print Assumptions C03_values_compressed.
+
+(* on a compressed written file: whatever was asked before, through the caching reader (which caches
+   the INFLATED blocks) or a reader reopened from it, an interval / per-base query on a chromosome of
+   the file is answered by the specification *)
+Theorem C03_history_written_compressed : forall cmp infl fp o sizes inp bs,
+  bw_write_z cmp fp o sizes inp = Ok bs \/ bw_write_multipass_z cmp fp o sizes inp = Ok bs ->
+  (o_compress o = true -> forall b, infl (cmp b) = b) ->
+  opts_ok o -> input_ok sizes inp -> Nlen bs < U64 ->
+  exists i, read_info bs = Ok i /\
+    (forall qs1 qs2,
+        fst (qrun infl bs i cache0 qs1) = map (fresh_answer infl bs i) qs1
+        /\ fst (qrun infl bs i (c_reopen (snd (qrun infl bs i cache0 qs1))) qs2) = map (fresh_answer infl bs i) qs2)
+    /\ (forall c vs s e, In (c, vs) (runs inp) ->
+          fresh_answer infl bs i (QInterval c s e) = AInterval (Ok (clip_filter s e vs))
+          /\ (s <= e -> fresh_answer infl bs i (QValues c s e) = AValues (Ok (spec_values s e vs)))).
+Proof.
+  intros cmp infl fp o sizes inp bs Hw Hrt Ho Hi Hs.
+  exact (written_z_history cmp infl fp o sizes inp bs Hrt Ho Hi Hs Hw).
+Qed.
+Print Assumptions C03_history_written_compressed.
+
+(* non-vacuity: the example file written compressed with a toy compressor (two marker bytes + the
+   block reversed; toy_infl inverts it) meets every hypothesis; the reader model inflating with
+   toy_infl answers as on the uncompressed file, also through the cache and the reopened cache *)
+Definition exz_opts : opts :=
+  {| o_compress := true; o_ips := 2; o_bs := 2; o_izoom := 160; o_maxzooms := 10; o_manual := Some [4]; o_sort_all := true |}.
+Example C03_compressed_example_hyps :
+  (forall b, toy_infl (toy_cmp b) = b) /\ opts_ok exz_opts /\ input_ok ex_sizes ex_inp
+  /\ (exists bs, bw_write_z toy_cmp ieee exz_opts ex_sizes ex_inp = Ok bs /\ Nlen bs < U64)
+  /\ (exists bs, bw_write_multipass_z toy_cmp ieee exz_opts ex_sizes ex_inp = Ok bs /\ Nlen bs < U64).
+Proof.
+  split; [exact toy_rt|]. split; [unfold opts_ok; cbn; lia|]. split; [exact (proj1 (proj2 C03_example_hyps))|].
+  split; eexists; (split; [vm_compute; reflexivity|reflexivity]).
+Qed.
+Example C03_compressed_example_run :
+  match bw_write_multipass_z toy_cmp ieee exz_opts ex_sizes ex_inp with
+  | Ok bs =>
+      match read_info bs with
+      | Ok i =>
+          0 <? h_ubuf (i_hdr i) = true
+          /\ bw_interval toy_infl bs i ex_a 4 6 = Ok [ex_v 4 6 1065353216]
+          /\ bw_interval toy_infl bs i ex_a 9 21 = Ok [ex_v 9 10 1065353216; ex_v 10 12 1073741824; ex_v 20 21 1077936128]
+          /\ bw_interval toy_infl bs i ex_a 15 15 = Ok []
+          /\ bw_values toy_infl bs i ex_a 8 14 = Ok [Some 1065353216; Some 1065353216; Some 1073741824; Some 1073741824; None; None]
+          /\ let qs := [QInterval ex_a 4 6; QValues ex_a 8 14; QInterval ex_a 9 21; QInterval ex_b 0 50; QInterval ex_a 4 6] in
+             let '(a1, c1) := qrun toy_infl bs i cache0 qs in
+             a1 = map (fresh_answer toy_infl bs i) qs
+             /\ length (c_blocks c1) = 3%nat
+             /\ fst (qrun toy_infl bs i (c_reopen c1) (rev qs)) = map (fresh_answer toy_infl bs i) (rev qs)
+      | _ => False
+      end
+  | _ => False
+  end.
+Proof. vm_compute. repeat split; reflexivity. Qed.
